@@ -2,7 +2,7 @@
 From Coq Require Import List ZArith Bool.
 From LJT Require Import model.Huff gen.GenParams model.CParams proofs.CParamsHoare proofs.CParamsTj
   proofs.CParamsScript proofs.CParamsChain proofs.CParamsSetup proofs.CParamsBlock proofs.CParamsMaster
-  proofs.CParamsPasses proofs.CParamsExamples lib.Sweep.
+  proofs.CParamsPasses proofs.CParamsSimd proofs.CParamsExamples lib.Sweep.
 Import ListNotations.
 Local Open Scope Z_scope.
 
@@ -116,6 +116,19 @@ Theorem C17_quant_divisor_total : forall q, 1 <= q <= 65535 ->
   1 <= islow_divisor q <= 65535 /\ islow_divisor q = Z.min (8 * q) 65535.
 Proof. exact quant_divisor_total_lemma. Qed.
 Print Assumptions C17_quant_divisor_total.
+
+(* the C pre-check in front of the SIMD Huffman encoder accepts exactly the blocks that pass the range tests
+   of the C encoder (F15); hence the SIMD encoder never sees a block encode_one_block would reject *)
+Theorem C17_simd_precheck_equiv : forall prec last_dc dc acs, 0 <= prec ->
+  simd_range_ok prec last_dc (dc :: acs) = true <->
+  seq_dc_ok prec (dc - last_dc) = true /\ forallb (seq_ac_ok prec) acs = true.
+Proof. exact simd_precheck_equiv_lemma. Qed.
+Print Assumptions C17_simd_precheck_equiv.
+Theorem C17_simd_precheck_sound : forall prec dctbl actbl st last_dc coefs, 0 <= prec ->
+  encode_one_block prec dctbl actbl st last_dc coefs = inl BadDctCoef ->
+  simd_range_ok prec last_dc coefs = false.
+Proof. exact simd_precheck_sound_lemma. Qed.
+Print Assumptions C17_simd_precheck_sound.
 
 (* (6) stream completeness, as far as the model carries it: the pass loop of the master terminates for every
    scan count / optimisation setting / set of DC refinement scans, writes SOI first, every scan's data exactly
